@@ -107,6 +107,9 @@ class Ctx:
 def worker_main():
     job = json.loads(sys.stdin.read())
     os.environ.setdefault("VERIF_REPO", job["repo"])
+    from . import linecov
+
+    linecov.start(job["repo"])      # before the library is imported, so that module-level lines count too
     from .util import setup_repo_path
 
     setup_repo_path()
@@ -122,6 +125,8 @@ def worker_main():
     res["wall_s"] = time.time() - t0
     with open(job["out"] + ".keys", "wb") as f:
         array.array("Q", sorted(ctx.keys)).tofile(f)
+    with open(job["out"] + ".cov", "w") as f:
+        json.dump(linecov.collect(), f)
     with open(job["out"], "w") as f:
         json.dump(res, f, ensure_ascii=False)
 
@@ -136,6 +141,9 @@ def worker_env(extra=None):
     if extra:
         env.update(extra)
     return env
+
+
+LINES = {}      # library lines executed by the workers of this run (observation for the evidence file, see rv/linecov.py)
 
 
 def run_shards(prop, tier, seed, descs, timeout_s, max_workers=None, env_for=None, only=None):
@@ -188,6 +196,12 @@ def run_shards(prop, tier, seed, descs, timeout_s, max_workers=None, env_for=Non
                 with open(out + ".keys", "rb") as f:
                     a.frombytes(f.read())
                 keys.update(a)
+                try:
+                    with open(out + ".cov") as f:
+                        for fn, ls in json.load(f).items():
+                            LINES.setdefault(fn, set()).update(ls)
+                except Exception:
+                    pass
     finally:
         import shutil
 
@@ -294,6 +308,24 @@ def run_property(prop, tier=None, seed=None):
         "notes": merged["notes"][:20],
     }
     coverage.update(extra)
+    try:
+        from . import linecov
+
+        anchors = []
+        with open(os.path.join(VERIF_DIR, "properties.jsonl")) as f:
+            for line in f:
+                d = json.loads(line)
+                if d["id"] == prop:
+                    anchors = d.get("anchors", {}).get("files", [])
+        if LINES:
+            coverage["library_lines_executed"] = linecov.summarise(LINES, repo_path(), anchors)
+            if os.environ.get("VERIF_REPO", "/repo") == "/repo":      # full sets only for the tree itself (tools/linecov.py)
+                covdir = os.path.join(VERIF_DIR, ".scratch", "linecov")
+                os.makedirs(covdir, exist_ok=True)
+                with open(os.path.join(covdir, "%s-%s.json" % (prop, tier)), "w") as f:
+                    json.dump({fn: sorted(ls) for fn, ls in LINES.items()}, f)
+    except Exception as e:      # an observation, never a verdict
+        coverage["library_lines_executed"] = {"unavailable": repr(e)[:200]}
     evidence = {
         "property_id": prop, "tier": tier, "seed": seed,
         "level": getattr(mod, "LEVEL", "exploration"),
